@@ -383,12 +383,12 @@ func genOptsTok(r *common.Rng, rich bool) string {
 		seen := map[int]bool{}
 		var l []string
 		for i := r.Range(1, 3); i > 0; i-- {
-			k := r.Intn(8)
+			k := r.Intn(metaKeyU)
 			if seen[k] {
 				continue
 			}
 			seen[k] = true
-			l = append(l, fmt.Sprintf("%d:%d", k, r.Intn(8)))
+			l = append(l, fmt.Sprintf("%d:%d", k, r.Intn(metaValU)))
 		}
 		meta = strings.Join(l, ",")
 	}
@@ -526,6 +526,18 @@ func sysCli() []cliCase {
 	single := []string{"2:3/0/r/0/z/-/-/-/-", "0:0/3/r/0/z/-/-/-/-", "0:0/7/r/0/z/-/-/-/-", "0:0/0/d/0/z/-/-/-/-", "0:0/0/r/1024/z/-/-/-/-",
 		"0:0/0/r/0/u/-/-/-/-", "0:0/0/r/0/p/-/-/-/-", "0:0/0/r/0/f5/-/-/-/-", "0:0/0/r/0/z/1:2,3:0/-/-/-", "0:0/0/r/0/z/7:7/-/-/-", "0:0/0/r/0/z/0:3/-/-/-",
 		"0:0/0/r/0/z/-/5/-/-", "0:0/0/r/0/z/-/-/1,2/-", "0:0/0/r/0/z/-/-/-/1,2", "-1:-1/0/r/0/z/-/-/-/-", "0:0/0/r/0/z/-/-/-/-"}
+	var allMeta []string
+	for k := 1; k < metaKeyU; k++ {
+		single = append(single, fmt.Sprintf("0:0/0/r/0/z/%d:%d/-/-/-", k, 1+k%(metaValU-1)))
+		allMeta = append(allMeta, fmt.Sprintf("%d:%d", k, (k*7+3)%metaValU))
+	}
+	single = append(single, "0:0/0/r/0/z/"+strings.Join(allMeta, ",")+"/-/-/-")
+	for v := 0; v < metaValU; v++ {
+		single = append(single, fmt.Sprintf("0:0/0/r/0/z/%d:%d/-/-/-", 1+v%(metaKeyU-1), v))
+	}
+	for n := 1; n < nameU; n++ {
+		single = append(single, fmt.Sprintf("0:0/%d/r/0/z/13:10/-/-/-", n))
+	}
 	for _, o := range single {
 		out = append(out, cliCase{creds: 0, cc: "n", rpc: "ok", call: "Pin", a: "c4", o: o, l: "-", f: "-"})
 		out = append(out, cliCase{creds: 0, cc: "n", rpc: "ok", call: "PinPath", a: "ipfs/c5/a", o: o, l: "-", f: "-"})
